@@ -329,11 +329,22 @@ def common (s : St4) (label : String) (obs : Json) (x' : World4) (cause : Nat) (
   let sf := stateFindings label x'.c.st p4
   let predicted := rf.isEmpty ∧ sf.isEmpty
   let (s'', imf) := if checkImage then imageFindings s' p4 label predicted else (s', [])
+  -- C05 on UP4: with no session live the plug-in holds nothing and the switch only the interfaces entries
+  let so := (getObj? p4 "stats").getD Json.null
+  let idle : List Finding :=
+    if !(live x').isEmpty ∨ so == Json.null then [] else
+    let want : List (String × Nat) := [("ctr_free", 1024), ("app_free", 1023), ("sess_free", 1023), ("peer_pool", 253), ("app_pool", 254),
+      ("peers", 0), ("apps", 0), ("meters", 0), ("ue2f", 0), ("f2ue", 0)]
+    let bad := want.filter fun (k, v) => getNat so k != v
+    let extra := (obsEntries p4).filter fun e => e.table != Gen.P4Constants.TablePreQosPipeInterfaces
+    (if bad.isEmpty then [] else [⟨"C05", s!"{label}: no session is live, but the UP4 plug-in has not got everything back: {bad.map fun (k, v) => s!"{k}={getNat so k} (all returned: {v})"}"⟩]) ++
+    (if extra.isEmpty then [] else [⟨"C05", s!"{label}: no session is live, but the switch still holds {extra.length} entries besides the interfaces, e.g. {(extra.take 2).map showE}"⟩]) ++
+    (if (obsMeters p4).filter (fun m => !s.staleMeters.contains m.1) |>.isEmpty then [] else [⟨"C05", s!"{label}: no session is live, but meter cells are still configured"⟩])
   -- conditions on the pools persist: each is reported at the event that introduces it
   let strip (m : String) : String := ((m.splitOn ": ").drop 1).foldl (· ++ ·) ""
   let pf := poolFindings label x' p4 ++ exclusiveFindings label p4
   let newPf := pf.filter fun f => !s.seenPool.contains (strip f.msg)
-  ({ s'' with seenPool := pf.map fun f => strip f.msg }, rf ++ sf ++ validityFindings label rpcs ++ failedWriteFindings label rpcs cause ++ newPf ++ imf)
+  ({ s'' with seenPool := pf.map fun f => strip f.msg }, rf ++ sf ++ validityFindings label rpcs ++ failedWriteFindings label rpcs cause ++ newPf ++ imf ++ idle)
 
 def step (s : St4) (n : Nat) (line : String) : St4 × List Finding :=
   match Json.parse line with
@@ -420,9 +431,30 @@ def step (s : St4) (n : Nat) (line : String) : St4 × List Finding :=
       (s', replyFindings obs r ++ fs)
     | "release" =>
       let a := getNat j "a"
-      let x' := Agent4.shutdownConn s.cfg4 (withEnv s.x rpcs) a
+      -- Shutdown walks the association's sessions in map order: take the order from the observation (each session's removal
+      -- begins with the DELETE of its first PDR's sessions entry, which carries its TEID or UE address)
+      let keyOf (ses : Session) : Nat := match ses.pdrs.head? with
+        | some p => if p.srcIface = Sdf.access then p.tunnelTEID else p.ueAddress
+        | none => 0
+      let posOf (ses : Session) : Nat :=
+        (rpcs.zipIdx.find? fun (r, _) => r.ups.any fun u => match u.upd.ent with
+          | .tbl e => e.ms.any (·.v == keyOf ses)
+          | _ => false).map (·.2) |>.getD rpcs.length
+      let conn := s.x.w.conn a
+      let ordered := conn.sessions.foldr (fun ses acc =>
+        let rec ins (l : List Session) : List Session := match l with
+          | [] => [ses]
+          | y :: ys => if posOf ses ≤ posOf y then ses :: y :: ys else y :: ins ys
+        ins acc) []
+      let x0 : World4 := { s.x with w := s.x.w.setConn a { conn with sessions := ordered } }
+      let x' := Agent4.shutdownConn s.cfg4 (withEnv x0 rpcs) a
       let (s', fs) := common s "release" obs x' 0 true
       (s', replyShape obs 10 ++ fs)
+    | "report65" =>
+      let a := getNat j "a"
+      let x' := Agent4.reportContextNotFound s.cfg4 (withEnv s.x rpcs) a (getNat j "seid")
+      let (s', fs) := common s "report-context-not-found" obs x' 0 true
+      (s', (if getNat obs "n" != 0 then [⟨"C02", "a Session Report Response was answered"⟩] else []) ++ fs)
     | "hb" => (s, replyShape obs 2)
     | "gen" =>
       (s, (if getStr j "error" != "" then [⟨"C16", s!"constants generator: {getStr j "error"}"⟩] else
